@@ -207,17 +207,78 @@ def o1_import(rep):
 
 
 # ----------------------------------------------------------------------------------
-class ObsRow:
-    def __init__(self, i, sensor_id, target_id, pos):
-        self.i, self.sensor_id, self.target_id = i, sensor_id, target_id
-        self.pos_x_km, self.pos_y_km, self.pos_z_km = pos
-        self.measurement = None
+def _real_measurement():
+    import numpy as np
+    from resonaate.physics.measurements import Measurement
 
-    def makeDictionary(self):
-        class D:
-            sensor_id, target_id, julian_date = self.sensor_id, self.target_id, 0.0
+    return Measurement.fromMeasurementLabels(["azimuth_rad", "elevation_rad"], np.eye(2) * 1e-6)
 
-        return D
+
+def _stored_observation(i, sensor_id, target_id, pos):
+    """A real Observation as it comes back from the importer database: the measurement metadata is not stored."""
+    import numpy as np
+    from resonaate.data.observation import Observation
+
+    ob = Observation(julian_date=2459303.5 + 600 / 86400, target_id=target_id, sensor_id=sensor_id, sensor_type="Optical", sensor_eci=np.array([*pos, 0.0, 0.0, 0.0]),
+                     measurement=_real_measurement(), azimuth_rad=0.1 * (i + 1), elevation_rad=0.2)
+    ob._measurement = None
+    ob._row_index = i
+    return ob
+
+
+def _bare_sensing_agent(measurement):
+    """A real SensingAgent without running its constructor: only the attribute the real constructor stores the sensor in."""
+    import types
+
+    from resonaate.agents.sensing_agent import SensingAgent
+
+    ag = object.__new__(SensingAgent)
+    ag._sensors = types.SimpleNamespace(measurement=measurement, host=ag)
+    return ag
+
+
+def replay_observations(d):
+    """The same stored rows through the real loadImportedObservations (concrete)."""
+    from resonaate.tasking.engine import centralized_engine as CE
+
+    sensors = [21, 22]
+    meas = {s: _real_measurement() for s in sensors}
+    rows = [_stored_observation(r["i"], r["sensor"], r["target"], tuple(r["pos"])) for r in d["rows"]]
+    eng = object.__new__(CE.CentralizedTaskingEngine)
+    eng.logger = logging.getLogger("symx")
+
+    class IDB:
+        def getData(self, query, multi=True):
+            return rows
+
+    eng._importer_db = IDB()
+    eng._sensor_store = {s: _bare_sensing_agent(meas[s]) for s in sensors}
+
+    class Ray:
+        @staticmethod
+        def get(h):
+            return h
+
+    try:
+        with shadow(CE, ray=Ray):
+            out = eng.loadImportedObservations(_dt.datetime(2021, 3, 30, 0, 10, 0))
+    except Exception as e:  # noqa: BLE001
+        return True, {"raised": repr(e)}
+    want = _wanted(rows)
+    ok = [x._row_index for x in out] == [x._row_index for x in want] and all(x.measurement is meas[x.sensor_id] for x in out)
+    return (not ok), {"returned": [x._row_index for x in out], "expected": [x._row_index for x in want]}
+
+
+def _wanted(rows):
+    """Independent oracle: every stored observation reaches its target's filter; only a repeated record of the same
+    (sensor, target) pair at the epoch is a duplicate."""
+    seen, want = set(), []
+    for row in rows:
+        key = (row.sensor_id, row.target_id)
+        if key not in seen:
+            seen.add(key)
+            want.append(row)
+    return want
 
 
 def o3_observations(rep):
@@ -225,33 +286,28 @@ def o3_observations(rep):
 
     sensors = [21, 22]
     targets = [11, 12]
+    meas = {s: _real_measurement() for s in sensors}
 
     def run():
         eng = object.__new__(CE.CentralizedTaskingEngine)
         eng.logger = logging.getLogger("symx")
         cap = {}
         rows = []
-        # up to 3 stored observations; (sensor, target) of each chosen by the solver; positions are those of the sensor (two candidate positions per sensor)
+        # up to 3 stored observations; (sensor, target) of each chosen by the solver; the position stored with a row is its sensor's position
         for i in range(3):
             if not bool(boolean(f"present_{i}")):
                 continue
             s = sensors[0] if bool(boolean(f"sens_{i}")) else sensors[1]
             t = targets[0] if bool(boolean(f"tgt_{i}")) else targets[1]
-            dup = bool(boolean(f"samepos_{i}"))
-            pos = (1000.0 + s, 2000.0 + s, 3000.0 + (0.0 if dup else 0.5 * (i + 1)))
-            rows.append(ObsRow(i, s, t, pos))
+            rows.append(_stored_observation(i, s, t, (1000.0 + s, 2000.0 + s, 3000.0)))
 
         class IDB:
             def getData(self, query, multi=True):
                 cap["query"] = query
                 return rows
 
-        class SensorAgent:
-            def __init__(self, sid):
-                self.measurement = f"measurement-of-{sid}"
-
         eng._importer_db = IDB()
-        eng._sensor_store = {s: SensorAgent(s) for s in sensors}
+        eng._sensor_store = {s: _bare_sensing_agent(meas[s]) for s in sensors}
 
         class Ray:
             @staticmethod
@@ -259,37 +315,48 @@ def o3_observations(rep):
                 return h
 
         epoch = _dt.datetime(2021, 3, 30, 0, 10, 0)
-        with shadow(CE, ray=Ray, int=lambda x: int(x)):
+        with shadow(CE, ray=Ray):
             out = eng.loadImportedObservations(epoch)
         return rows, out, cap, epoch
 
-    res = explore(run, max_paths=5000, max_depth=60)
+    res = explore(run, max_paths=5000, max_depth=60, catch=(Exception,))
     rep.note(f"paths={len(res)}")
     n = 0
     for r in res:
+        n += 1
         if r.exc is not None:
-            rep.error("exception", repr(r.exc))
+            # the real code raised for a feasible database content: replay it
+            m = rep.feasible(f"raises#{n}", r.constraints)
+            rep.prove(f"observations#{n}", z3.BoolVal(False), r.constraints, inputs=_rows_from_model, replay=replay_observations,
+                      sample=f"loadImportedObservations must not raise ({type(r.exc).__name__})")
             continue
         rows, out, cap, epoch = r.out
-        # oracle: observations distinct in (rounded sensor position, target) are each returned exactly once, in order, with the sensor's measurement
-        seen, want = set(), []
-        for row in rows:
-            key = (int(row.pos_x_km * 1e6), int(row.pos_y_km * 1e6), int(row.pos_z_km * 1e6), row.target_id)
-            if key not in seen:
-                seen.add(key)
-                want.append(row)
-        ok = [id(x) for x in out] == [id(x) for x in want] and all(x.measurement == f"measurement-of-{x.sensor_id}" for x in out)
-        n += 1
-        rep.prove(f"observations#{n}", z3.BoolVal(bool(ok)), r.constraints, sample="each stored observation distinct in (sensor position, target) returned once with its sensor's measurement attached")
-    if res:
-        q = res[-1].out[2].get("query")
-        epoch = res[-1].out[3]
+        want = _wanted(rows)
+        ok = [id(x) for x in out] == [id(x) for x in want] and all(x.measurement is meas[x.sensor_id] for x in out)
+        rep.prove(f"observations#{n}", z3.BoolVal(bool(ok)), r.constraints, inputs=_rows_from_model, replay=replay_observations,
+                  sample="every stored observation (distinct sensor/target pair) is returned once, in order, with its sensor's measurement attached (real Observation rows, bare real SensingAgent)")
+    ok_runs = [r for r in res if r.exc is None]
+    if ok_runs:
+        q = ok_runs[-1].out[2].get("query")
+        epoch = ok_runs[-1].out[3]
         if q is not None:
             wc = q.whereclause
             ok = (wc is not None and wc.operator.__name__ == "eq" and wc.left.key == "timestampISO" and wc.right.value == epoch.isoformat(timespec="microseconds"))
             rep.prove("query-shape", z3.BoolVal(bool(ok)), [], sample="Observation joined to Epoch where Epoch.timestampISO == epoch.isoformat(microseconds)")
     if n < 8:
         rep.error("reach", "too few database contents explored")
+
+
+def _rows_from_model(m):
+    rows = []
+    for i in range(3):
+        g = lambda nm: bool(z3.is_true(m.eval(z3.Bool(nm), model_completion=True)))  # noqa: E731
+        if not g(f"present_{i}"):
+            continue
+        s = 21 if g(f"sens_{i}") else 22
+        t = 11 if g(f"tgt_{i}") else 12
+        rows.append({"i": i, "sensor": s, "target": t, "pos": [1000.0 + s, 2000.0 + s, 3000.0]})
+    return {"rows": rows}
 
 
 def o4_readonly(rep):
@@ -314,7 +381,7 @@ def o4_readonly(rep):
     rep.prove("write-methods-touch-nothing", z3.BoolVal("session" not in src.split('"""')[-1] and "_getSessionScope" not in src), [], sample="insertData/deleteData/bulkSave bodies only raise")
 
 
-REPLAYS = {"O1": replay_import}
+REPLAYS = {"O1": replay_import, "O3": replay_observations}
 
 
 def obligations(tier):
